@@ -483,6 +483,8 @@ def run_uservars(_):
             ("defined-from-another", ["@var: base = 2.0", "@var: fscale = base*3.0"], {"base": 2.0, "fscale": 6.0}),
             ("single", ["@var: fscale = 4.0"], {"fscale": 4.0}),
             # the right-hand side of a @var line is a Fortran expression like the rates are
+            # Fortran's min / max take any number of arguments: whatever is emitted must keep every one of them
+            ("variadic-minmax", ["@var: fscale = min(9.0,2.0,5.0)", "@var: other = max(1.0,7.0,3.0,2.0)"], {"fscale": 2.0, "other": 7.0}),
             ("fortran-definition", ["@var: fscale = 4d0"], {"fscale": 4.0}),
             ("fortran-definition", ["@var: fscale = 2d0**2"], {"fscale": 4.0}),
         ):
@@ -505,7 +507,7 @@ def run_uservars(_):
                 if expr is None:
                     continue
                 try:
-                    vals[name] = float(eval_double(parse_expr(expr), {**env, **vals}, {"log": math.log, "sqrt": math.sqrt, "exp": math.exp, "log10": math.log10, "pow": math.pow}))
+                    vals[name] = float(eval_double(parse_expr(expr), {**env, **vals}, {"log": math.log, "sqrt": math.sqrt, "exp": math.exp, "log10": math.log10, "pow": math.pow, "min": min, "max": max}))
                 except CSyntaxError:
                     if name in want:
                         notc = (name, expr)
